@@ -201,17 +201,18 @@ func facts() map[string]any {
 	}
 	depth, defers := setWithCapShape()
 	return map[string]any{
-		"grow_pairs":                  growPairs,
-		"seg_counts":                  segCounts,
-		"cache_segments":              cacheSegs,
-		"segmap_global_locks":         lockFields(segMapT),
-		"cache_global_locks":          lockFields(reflect.TypeOf((*cache.Cache)(nil))) + lockFields(reflect.TypeOf((*cache.SyncUInt64Map[any])(nil))),
-		"segment_locks":               segmentLocks,
-		"setwithcap_max_lock_depth":   depth,
-		"setwithcap_defers":           defers,
-		"limiter_global_locks":        lockFields(reflect.TypeOf((*ratelimit.LimiterStore)(nil))),
-		"mutators_without_write_lock": mutatorsWithoutWriteLock(),
-		"segmap_count_atomic":         countIsAtomic(segMapT),
+		"grow_pairs":                        growPairs,
+		"seg_counts":                        segCounts,
+		"cache_segments":                    cacheSegs,
+		"segmap_global_locks":               lockFields(segMapT),
+		"cache_global_locks":                lockFields(reflect.TypeOf((*cache.Cache)(nil))) + lockFields(reflect.TypeOf((*cache.SyncUInt64Map[any])(nil))),
+		"segment_locks":                     segmentLocks,
+		"setwithcap_max_lock_depth":         depth,
+		"setwithcap_defers":                 defers,
+		"limiter_global_locks":              lockFields(reflect.TypeOf((*ratelimit.LimiterStore)(nil))),
+		"mutators_without_write_lock":       mutatorsWithoutWriteLock(),
+		"segmap_count_atomic":               countIsAtomic(segMapT),
+		"cache_wrappers_touching_internals": cacheWrappersTouchingInternals(),
 	}
 }
 
@@ -250,4 +251,41 @@ func actsBeforeLock(body *ast.BlockStmt) bool {
 		return true
 	})
 	return firstAct != token.NoPos && (firstLock == token.NoPos || firstAct < firstLock)
+}
+
+// cacheWrappersTouchingInternals lists the methods of cache.Cache, other than
+// CompareAndSwap / CompareAndDelete, whose body mentions a segment lock, the
+// global counter or a segment directly instead of delegating to the segmented
+// table (whose methods are single critical sections).
+func cacheWrappersTouchingInternals() []string {
+	repo := os.Getenv("VERIF_REPO")
+	if repo == "" {
+		repo = "/repo"
+	}
+	bad := []string{}
+	fset := token.NewFileSet()
+	file, err := parser.ParseFile(fset, filepath.Join(repo, "internal/cache/cache.go"), nil, 0)
+	if err != nil {
+		return []string{"cache.go:missing"}
+	}
+	for _, d := range file.Decls {
+		fd, ok := d.(*ast.FuncDecl)
+		if !ok || fd.Recv == nil || fd.Body == nil || fd.Name.Name == "CompareAndSwap" || fd.Name.Name == "CompareAndDelete" {
+			continue
+		}
+		touches := false
+		ast.Inspect(fd.Body, func(n ast.Node) bool {
+			if id, ok := n.(*ast.Ident); ok {
+				switch id.Name {
+				case "rwlock", "count", "getSegment", "segments":
+					touches = true
+				}
+			}
+			return true
+		})
+		if touches {
+			bad = append(bad, fd.Name.Name)
+		}
+	}
+	return bad
 }
